@@ -228,6 +228,27 @@ func (m c19) run(c *Ctx, d *c19dict, ops []c19op, r *RNG) {
 	var originalT []*TypeSpec
 	nAdd, nRemove, lateField := 0, 0, 0
 	hist := func(i int) string { return jsonStr(ops[:i+1]) }
+	// settle: every stored resource has just been looked at under the collection's current type (a read of all
+	// elements, or SetType, which visits them before switching): values of fields the type no longer has are gone
+	// for good, so such a field reads its zero value if it comes back later
+	settle := func() {
+		for i := range elems {
+			for f := range elems[i].unknown {
+				if cur.Attr(f) == nil && cur.Rel(f) == nil {
+					delete(elems[i].unknown, f)
+					delete(elems[i].rs.Attrs, f)
+					delete(elems[i].rs.ToOne, f)
+					delete(elems[i].rs.ToMany, f)
+				}
+			}
+		}
+	}
+	// blind histories: the stored resources are only read now and then (reading them makes the library tidy them,
+	// which would hide what an edit left behind)
+	blind := len(ops) > 3 && strSeed(jsonStr(ops[:3]))%3 == 0
+	if blind {
+		c.Count("blind_histories")
+	}
 
 	verify := func(step int) bool {
 		ok := true
@@ -406,6 +427,7 @@ func (m c19) run(c *Ctx, d *c19dict, ops []c19op, r *RNG) {
 			if len(elems) > 0 {
 				c.Count("settype/after-add")
 			}
+			settle()
 			for i := range elems {
 				for _, f := range cur.FieldNames() {
 					if nt.Attr(f) == nil && nt.Rel(f) == nil {
@@ -525,9 +547,13 @@ func (m c19) run(c *Ctx, d *c19dict, ops []c19op, r *RNG) {
 		for i := range elems {
 			elems[i].rs.Type = cur.Name
 		}
+		if blind && step < len(ops)-1 && (step*7+len(ops))%5 != 0 {
+			continue
+		}
 		if !verify(step) {
 			return
 		}
+		settle()
 	}
 	if nAdd >= 2 && nRemove >= 1 && lateField >= 1 {
 		c.Nontrivial(jsonStr(ops))
